@@ -130,10 +130,13 @@ CLAIMED = {
         "callback || SIGKILL + wait4, for all 8 configurations (user namespace, callback configured, early return).  Theorems for every "
         "reachable state by closed_sound: C07_callback_before_exec (while the callback runs the child is blocked at the sync point, nothing was "
         "exec'ed), C07_exec_needs_approval, C07_failed_never_runs (an error return: the target never ran, the child is reaped, the error is the "
-        "clone error, the callback's error, or names the step the child failed at), C07_success_means_execed, C07_no_deadlock; "
+        "clone error, the callback's error, or names the step the child failed at), C07_success_means_execed, C07_no_deadlock, "
+        "C07_launcher_death (the launcher may die at any point after the clone: the target is still never exec'ed without the ack and a "
+        "child blocked on the socket is woken by the end of file); "
         "C07_early_return_swallows_failure is the known finding for the configurations that return before exec.  Tie on every run: ~150 real "
         "launches with a fault induced at each reachable step by real inputs x callback {none, ok, failing} x user namespace, plus descriptor "
-        "lists of 3..39 entries with a failing exec; inside the callback the pid's image / state / parent and the target's marker file; after "
+        "lists of 3..39 entries with a failing exec, traced launches (no filter) with failing steps, launches whose launching process is "
+        "killed inside the callback; inside the callback the pid's image / state / parent and the target's marker file; after "
         "the return wait4(-1) = ECHILD and the ChildError location and index; every outcome must be a terminal outcome of the LTS (in Coq).",
    note="Partial: signal delivery latency is not modelled (the kill is atomic with the wait in the LTS).  The container relay of the pid "
         "(SCM_CREDENTIALS translation, rule SK3) is exercised by the C10/C11/C16 runs, not modelled here.  Trusted: Coq kernel + vm_compute.",
@@ -284,10 +287,12 @@ CLAIMED = {
         "the 255-instruction jump horizon, the full 380-name table, random and malformed policies, re-splits and repeats of one name sequence "
         "(Build must be a function of its input) and runprog's 16 shipped configurations; in Coq (vm_compute) each real filter must (a) be "
         "bit-identical to the Gallina port `build` of Builder.Build/Policy.Assemble/Program.Assemble(long-jump rewriting)/bpf.Assemble/sockFilter "
-        "and (b) pass check_filter for the declared policy, which by the theorem is a proof for that filter over its whole input space.  Further "
-        "theorems: fail-closed actions, foreign ABI / x32, unknown names never build, cleanTrace (trace precedence, disjoint, duplicate-free).",
-   note="Partial: the statement 'for every policy' is proved per built filter (validator), not yet as one theorem about the port `build` for all "
-        "policies (C01_build_correct is not proved; stated in DESIGN.md).  Trusted: Coq kernel + vm_compute; cBPF semantics of the fragment "
+        "and (b) pass check_filter for the declared policy, which by the theorem is a proof for that filter over its whole input space.  "
+        "C01_build_correct_partial proves the port correct once and for all for every policy with at most 256 numbers per list (closed form of "
+        "Program.Assemble's output, C01_assemble_closed_form, and the filter's semantics with both prologue forms).  Filters returned by earlier "
+        "Builds of one long-lived Builder are held and read again after all later Builds.  Further theorems: fail-closed actions, foreign ABI / x32, unknown names never build, cleanTrace (trace precedence, disjoint, duplicate-free).",
+   note="Partial: 'for every policy' is one theorem about the port `build` only up to 256 numbers per list; for longer lists (early returns "
+        "inserted by Program.Assemble) it is proved per built filter by the validator (stated in DESIGN.md).  Trusted: Coq kernel + vm_compute; cBPF semantics of the fragment "
         "(ld abs nr/arch, jeq/jgt/jge k, ja, ret) as modelled in Seccomp/Bpf.v; kernel action constants; the syscall table is data dumped from "
         "go-seccomp-bpf on every run; Python cBPF interpreter as independent oracle.",
    technique="Coq proof of a reflective validator (translation validation of each built filter inside Coq) + bit-exact Gallina port of the assembler",
